@@ -7,7 +7,9 @@ line of the task body a pre-emption point.  All decisions (which worker advances
 lines, which idle worker takes the next task) come from the run's PRNG or from a recorded trace.
 """
 import copy
+import linecache
 import pickle
+import re
 import sys
 import threading
 import types
@@ -22,7 +24,7 @@ class SchedConfig:
         self.reset()
 
     def reset(self, rng=None, p_switch=0.0, victim=None, trace=None, target_names=(), order=None,
-              record_memmap=False):
+              record_memmap=False, io_mode=False, delay=None, count_io=False):
         self.rng = rng
         self.p_switch = p_switch
         self.victim = victim          # worker index with a low weight (starvation bias)
@@ -31,6 +33,11 @@ class SchedConfig:
         self.target_names = set(target_names)
         self.order = order            # optional explicit first-pick order for p_switch == 0
         self.record_memmap = record_memmap
+        self.io_mode = io_mode        # pre-emption decisions only around lines that touch files
+        self.delay = delay            # {"task": t, "at": e}: task t is suspended at its e-th file-touching line until every
+        #                               other worker has finished (the classic "hold one worker at a chosen point" schedule)
+        self.count_io = count_io
+        self.io_counts = {}           # task index -> number of file-touching line events seen (for placing delays)
         self.mm_writes = []           # (worker, task, key-summary) history of memmap stores
         self.calls = 0
         self.n_workers_used = []
@@ -50,8 +57,22 @@ _REPO_SRC = str(_REPO / "src") + "/"
 # while worker k runs it sees its own copies (deep copies of the import-time snapshot taken by
 # install()), and the parent's objects are put back when it parks.
 _WATCHED = []          # module objects
-_IMPORT_STATE = {}     # (module name, global name) -> import-time deep copy
-_WORKER_STATE = {}     # worker idx -> {(module name, global name): private object}; lives as long as the process
+_IMPORT_STATE = {}     # module name -> {global name: import-time value (containers deep-copied)}
+_WORKER_STATE = {}     # worker idx -> {module name: {global name: value}}; lives as long as the process
+_IMPORT_NAMES = {}     # module name -> every name bound at import time (whatever its type)
+
+
+def _is_data(v):
+    return not (isinstance(v, (types.ModuleType, types.FunctionType, types.BuiltinFunctionType, type)) or callable(v))
+
+
+def _copy_container(v):
+    if isinstance(v, (dict, list, set, np.ndarray)):
+        try:
+            return copy.deepcopy(v)
+        except Exception:
+            return v
+    return v
 
 
 def _snapshot_import_state(modules):
@@ -59,42 +80,43 @@ def _snapshot_import_state(modules):
         if m in _WATCHED:
             continue
         _WATCHED.append(m)
-        for name, v in list(m.__dict__.items()):
-            if name.startswith("__"):
-                continue
-            if isinstance(v, (dict, list, set)) and not isinstance(v, type):
-                try:
-                    _IMPORT_STATE[(m.__name__, name)] = copy.deepcopy(v)
-                except Exception:
-                    pass
+        _IMPORT_STATE[m.__name__] = {n: _copy_container(v) for n, v in m.__dict__.items()
+                                     if not n.startswith("__") and _is_data(v)}
+        _IMPORT_NAMES[m.__name__] = set(m.__dict__)
 
 
 def _enter_worker(idx):
-    """Install worker idx's private module state; returns what to restore."""
+    """Bind the watched modules' data globals to worker idx's own values (import-time state at first,
+    then whatever the worker left there); returns what is needed to put the parent's bindings back."""
     st = _WORKER_STATE.setdefault(idx, {})
     saved = []
     for m in _WATCHED:
         d = m.__dict__
-        # globals created at run time by the parent (after import) do not exist in a worker unless it made them
-        for name, v in list(d.items()):
-            if name.startswith("__") or not isinstance(v, (dict, list, set)) or isinstance(v, type):
-                continue
-            key = (m.__name__, name)
-            if key not in st:
-                if key in _IMPORT_STATE:
-                    st[key] = copy.deepcopy(_IMPORT_STATE[key])
-                else:
-                    st[key] = type(v)()
-            saved.append((d, name, v, key))
-            d[name] = st[key]
+        mine = st.get(m.__name__)
+        if mine is None:
+            mine = st[m.__name__] = {n: _copy_container(v) for n, v in _IMPORT_STATE[m.__name__].items()}
+        parent = {n: v for n, v in d.items() if not n.startswith("__") and _is_data(v)}
+        for n, v in mine.items():
+            d[n] = v
+        for n in parent:
+            if n not in mine and n not in _IMPORT_NAMES[m.__name__]:
+                # created by the parent at run time (not at import): a worker process never saw it
+                del d[n]
+        saved.append((m, parent))
     return saved
 
 
 def _leave_worker(idx, saved):
     st = _WORKER_STATE.setdefault(idx, {})
-    for d, name, parent_obj, key in saved:
-        st[key] = d.get(name, st.get(key))     # the worker may have rebound the global
-        d[name] = parent_obj
+    for m, parent in saved:
+        d = m.__dict__
+        now = {n: v for n, v in d.items() if not n.startswith("__") and _is_data(v)}
+        st[m.__name__] = {n: v for n, v in now.items() if n in _IMPORT_STATE[m.__name__] or n not in _IMPORT_NAMES[m.__name__]}
+        for n in now:
+            if n not in parent:
+                del d[n]
+        for n, v in parent.items():
+            d[n] = v
 
 
 class _Abort(BaseException):
@@ -166,6 +188,31 @@ def _isolate_arg(a):
         return a
 
 
+_IO_RE = re.compile(r"open\(|np\.load|np\.save|tofile|\.seek\(|\.stat\(|memmap|unlink|rename|replace\(|exists\(|\.write\(|"
+                    r"\.read\(|truncate|touch\(|mkdir|Reader\(|\.close\(|shutil\.|\.flush\(|getsize|fromfile|\[.*\] *= ")
+_IO_LINES = {}
+
+
+def _io_adjacent(frame):
+    """True when the line about to run, or the one that just ran in this frame, touches a file (by its
+    source text) or stores into an array slice (memmap stores look like that)."""
+    co = frame.f_code
+    tab = _IO_LINES.get(co)
+    if tab is None:
+        tab = set()
+        try:
+            first = co.co_firstlineno
+            last = max((ln for _, _, ln in co.co_lines() if ln is not None), default=first)
+        except Exception:
+            first, last = co.co_firstlineno, co.co_firstlineno + 400
+        for ln in range(first, last + 1):
+            if _IO_RE.search(linecache.getline(co.co_filename, ln)):
+                tab.add(ln)
+                tab.add(ln + 1)
+        _IO_LINES[co] = tab
+    return frame.f_lineno in tab
+
+
 class _Worker:
     def __init__(self, idx, par):
         self.idx = idx
@@ -174,6 +221,8 @@ class _Worker:
         self.budget = 0
         self.ran = 0
         self.state = "idle"      # idle | running | done
+        self.suspended = False
+        self.first = None
         self.why = None
         self.task = None
         self.thread = threading.Thread(target=self._main, name=f"simworker-{idx}", daemon=True)
@@ -188,9 +237,13 @@ class _Worker:
             while True:
                 if par.abort:
                     break
-                if not par.queue:
+                if self.first is not None:
+                    ti, (fn, a, k) = self.first
+                    self.first = None
+                elif not par.queue:
                     break
-                ti, (fn, a, k) = par.queue.pop(0)
+                else:
+                    ti, (fn, a, k) = par.queue.pop(0)
                 self.task = ti
                 SCHED.task_log.append((ti, self.idx))
                 SCHED.current = (self.idx, ti)
@@ -200,12 +253,28 @@ class _Worker:
                 code = fn2.__code__
                 self.state = "running"
 
+                io_mode = SCHED.io_mode
+
                 def local(frame, event, arg, _w=self):
                     if event == "line":
+                        io = _io_adjacent(frame)
+                        if io:
+                            k = SCHED.io_counts.get(_w.task, 0)
+                            SCHED.io_counts[_w.task] = k + 1
+                            dl = SCHED.delay
+                            if dl is not None and dl["task"] == _w.task and dl["at"] == k and not _w.par.abort:
+                                dl["reached"] = True
+                                _w.suspended = True
+                                _w._handback("suspend")
+                                if _w.par.abort:
+                                    _w.aborting = True
+                                    raise _Abort()
+                        elif io_mode:
+                            return local
                         _w._yield_point()
                     return local
 
-                fine = SCHED.p_switch > 0 or SCHED.replay is not None
+                fine = SCHED.p_switch > 0 or SCHED.replay is not None or SCHED.delay is not None or SCHED.count_io
 
                 def glob(frame, event, arg, _code=code, _src=_REPO_SRC):
                     if not fine:
@@ -292,6 +361,13 @@ class SimParallel:
             SCHED.trace.append([-1, len(tasks), "inline"])
             return out
         workers = [_Worker(i, self) for i in range(n)]
+        # joblib hands one task to every worker as soon as the call starts; later tasks go to whoever is free
+        first_owner = list(range(n))
+        if SCHED.rng is not None and SCHED.replay is None:
+            SCHED.rng.shuffle(first_owner)
+        for wi in first_owner:
+            if self.queue:
+                workers[wi].first = self.queue.pop(0)
         for w in workers:
             w.thread.start()
         INF = 1 << 60
@@ -326,10 +402,23 @@ class SimParallel:
         return self.results
 
     def _pick(self, live, workers, INF):
+        awake = [w for w in live if not w.suspended]
+        if not awake:
+            for w in live:
+                w.suspended = False      # everybody else is done: the held worker goes on
+            awake = live
+        live = awake
+        dl = SCHED.delay
+        if dl is not None and SCHED.replay is None and not dl.get("reached"):
+            # first bring the task to be held up to its hold point (it parks itself there) ...
+            for w in live:
+                if w.task == dl["task"] or (w.first is not None and w.first[0] == dl["task"]):
+                    return w, INF
+            # ... (if it sits in the queue, whoever is picked will get to it)
         if SCHED.replay is not None:
             while SCHED.replay:
                 wi, L, _why = SCHED.replay.pop(0)
-                if wi < len(workers) and workers[wi].state != "done":
+                if wi < len(workers) and workers[wi].state != "done" and workers[wi] in live:
                     return workers[wi], (L if L > 0 else 1)
             return live[0], INF
         rng = SCHED.rng
